@@ -8,9 +8,9 @@ LEVEL = "exploration"
 RULE = ("seeded random FloScript programs (1-2 active framers, an optional plain aux framer, 1-2 moot framers cloned once or twice "
         "by `aux .. as name|mine [via ..]`, also from inside another moot; 2-4 frames per framer nested up to depth 3; optional `via` "
         "inodes on framers, frames, clones and do-acts in absolute, root-, me-, framer-, frame-, actor- and main-relative form) whose "
-        "put/set/inc/copy/go-if/do statements address the store through reference sites of every written form (absolute, root-relative, "
+        "put/set/inc/copy/go-if (boolean, ==/!= with direct or indirect goal, is updated/changed)/do statements address the store through reference sites of every written form (absolute, root-relative, "
         "`of me`, `of framer [me|name]`, `of frame [me|name] [of framer ..]`, `of actor [me|name] ..`, `of framer main` / `of frame main`, "
-        "inline and partial-inline spellings, raw ioinit paths of `do .. per`, `do .. from`, `do .. via`); literal path segments reuse "
+        "inline and partial-inline spellings, raw ioinit paths of `do .. per` and of `do .. for` (path text pre-loaded by `init`), `do .. from`, `do .. via`); literal path segments reuse "
         "the program's framer/frame/actor/tag names and the words me/main/framer/frame/actor; each program is built with the real "
         "Builder, run for a few ticks, and then re-built once per framer, frame, named actor and clone tag with that one name replaced "
         "by a fresh token; distinct = distinct (program text, renamed entity); non-trivial = the program built and at least one reference "
@@ -26,7 +26,6 @@ META = {"engine": "A floscript (build, resolve, short run)",
                       "me/main rules); runtime clones (rear) and conditional aux are outside the generated programs; plain aux framers "
                       "have no main at resolve time so `main` forms are generated in cloned moots only."}
 
-KINDS = ("abs", "root", "me", "framer", "frame", "actor", "main", "via")
 RENAMES = {"F": "framer", "X": "frame", "A": "actor", "T": "clone"}
 
 
